@@ -1818,3 +1818,7 @@ mod tests {
         assert!(server_res.is_err());
     }
 }
+
+#[cfg(feature = "pendulum_project_ntpd_rs_verif")]
+#[path = "/verif/hooks/ntp-proto/nts_mod.rs"]
+pub mod verif_hooks;
